@@ -619,6 +619,35 @@ theorem sys_retries_exact (P : SProto Q) (cls : Bytes → Client.Ev) (c : LossSy
 /-- close is idempotent in every state -/
 theorem sys_close_idempotent (s : Sys Q) : LossSys.closeConn (LossSys.closeConn s) = LossSys.closeConn s := rfl
 
+/-! examples: the hypotheses are satisfiable and the exact bound is attained -/
+
+theorem exCls_no_pending : ∀ d, exCls d ≠ .pending := by intro d; unfold exCls; split <;> simp
+
+def exSys : Sys Bytes := LossSys.Sys.init LossSys.linesS
+def exC (n : Nat) : LossSys.CCfg := { maxRetry := n, lim := Client.Limits.std }
+
+-- a silent peer on a line transport, max_retry = 2, timeout 500 ms: three attempts on the same connection, the call
+-- ends at exactly 3 * 500 + 200 + 400 = 2100 ms = the bound; three writes of the request, one connection
+example : (LossSys.request LossSys.linesS exCls (exC 2) exReq (some 500) exSys []).2.1.now = 2100 ∧
+    LossSys.callBudget LossSys.linesS Client.Limits.std 500 false 2 0 = 2100 ∧
+    (LossSys.request LossSys.linesS exCls (exC 2) exReq (some 500) exSys []).1 = .missing false ∧
+    (LossSys.request LossSys.linesS exCls (exC 2) exReq (some 500) exSys []).2.1.wire = [(0, 0, exReq), (0, 700, exReq), (0, 1600, exReq)] ∧
+    (LossSys.request LossSys.linesS exCls (exC 2) exReq (some 500) exSys []).2.1.nconn = 1 := by decide
+-- the peer closes 70 ms after the request and accepts again: the second attempt goes out on connection #1 after the
+-- backoff and returns the reply the peer sends there; the bytes of connection #0 (`62 f1` without newline) are gone
+example : (LossSys.request LossSys.linesS exCls (exC 1) exReq (some 500) exSys
+      [.peer (.advance 70), .peer (.deliver [0x36, 0x32, 0x66, 0x31]), .peer (.cut .eof), .peer (.advance 250),
+       .peer (.deliver [0x36, 0x32, 0x30, 0x31, 0x0A])]).1 = .reply [0x62, 0x01] := by decide
+-- max_retry = 0: the same loss ends the call with MissingResponse(cause = connection error) - no recovery
+example : (LossSys.request LossSys.linesS exCls (exC 0) exReq (some 500) exSys
+      [.peer (.advance 70), .peer (.cut .eof), .peer (.advance 250), .peer (.deliver [0x36, 0x32, 0x0A])]).1 = .missing true := by
+  decide
+-- a stale reply IS handed to the next request on the same connection (what the code does): the reply to the request
+-- that timed out arrives late and is returned to the follow-up request
+example : (LossSys.run LossSys.linesS exCls (exC 0) 10 exSys
+      [.request exReq (some 500), .peer (.advance 600), .peer (.deliver [0x36, 0x32, 0x0A]), .request exReq (some 500)] []).2.map
+      (fun | .req o _ _ _ => some o | _ => none) = [some (.missing false), some (.reply [0x62])] := by decide
+
 end Sys
 
 end Gallia.C08
